@@ -74,3 +74,64 @@ pub fn c16_event_tags_preserved() {
         k += 1;
     }
 }
+
+fn s(b: &[u8]) -> String {
+    let mut v = Vec::with_capacity(4);
+    let mut i = 0;
+    while i < b.len() {
+        v.push(b[i]);
+        i += 1;
+    }
+    unsafe { String::from_utf8_unchecked(v) }
+}
+fn eq(a: &str, b: &[u8]) -> bool {
+    let a = a.as_bytes();
+    if a.len() != b.len() {
+        return false;
+    }
+    let mut i = 0;
+    while i < b.len() {
+        if a[i] != b[i] {
+            return false;
+        }
+        i += 1;
+    }
+    true
+}
+
+/// Event level, metadata: a map with one concrete key whose three values are in non-sorted order with a
+/// duplicate survives
+/// Event -> SerdeEvent -> Event: same keys, same value lists in the same order (nothing sorted,
+/// de-duplicated, merged or dropped). The hasher state is fixed (RandomState needs OS randomness);
+/// keys and values are concrete so that hashing folds; one value byte is symbolic.
+#[kani::proof]
+#[kani::unwind(12)]
+#[kani::stub(stdhash::RandomState::new, random_state_stub)]
+pub fn c16_event_metadata_preserved() {
+    let x: u8 = kani::any();
+    kani::assume(x >= b'a' && x <= b'z');
+    let mut md: HashMap<String, Vec<String>> = HashMap::with_hasher(random_state_stub());
+    let mut v1 = Vec::with_capacity(3);
+    v1.push(s(&[b'z', x]));
+    v1.push(s(b"a"));
+    v1.push(s(b"a"));
+    md.insert(s(b"k2"), v1);
+    let mut tags = Vec::with_capacity(1);
+    tags.push(Tag::Keyboard(Keyboard::Eof));
+    let ev = Event { tags, metadata: md };
+    let wire = SerdeEvent::from(ev);
+    let back = Event::from(wire);
+    assert!(back.tags.len() == 1, "C16: tag count changed across the event round trip");
+    assert!(back.metadata.len() == 1, "C16: metadata keys lost or invented across the event round trip");
+    match back.metadata.get("k2") {
+        Some(v) => {
+            assert!(v.len() == 3, "C16: metadata value list changed length (deduplicated or dropped)");
+            if v.len() == 3 {
+                assert!(eq(&v[0], &[b'z', x]) && eq(&v[1], b"a") && eq(&v[2], b"a"), "C16: metadata values reordered or altered");
+            }
+        }
+        None => assert!(false, "C16: metadata key lost"),
+    }
+    kani::cover!(x == b'q', "metadata round trip reached");
+    std::mem::forget(back);
+}
